@@ -1,8 +1,9 @@
 #!/bin/sh
-# Applies every X07 mutant (selftest/X07/m*.patch) to a scratch worktree of /repo's HEAD on which the proposed
-# fixes proposed_fixes/X07_*.patch have been applied where they still apply (on the tree as found the check
-# already reports violations; once the fixes are commits of /repo they no longer apply and are skipped), and
-# expects ./check X07 to print VIOLATION lines for each mutant and none for the unmutated tree.
+# Applies every X07 mutant to a scratch worktree of /repo's HEAD - the UNCHANGED tree, on which ./check X07 exits 0
+# with the known findings X07-F1..F3 - and expects VIOLATION lines (violations that are NOT known findings).
+# selftest/X07/m*.patch apply to HEAD.  `ONFIX=1 sh selftest/X07/run_mutants.sh` first applies
+# proposed_fixes/X07_*.patch (the repaired tree, no known finding left), prefers selftest/X07/onfix/<name>.patch
+# where one exists and adds the mutants that only make sense there (ExtendedLSR round trip: m9).
 # usage: sh selftest/X07/run_mutants.sh [mutant-name ...]
 HERE="$(cd "$(dirname "$0")/../.." && pwd)"
 WT=$(mktemp -d /tmp/wt_X07_mut.XXXXXX)
@@ -10,17 +11,24 @@ OUTD=$(mktemp -d /tmp/x07_mut_out.XXXXXX)
 rmdir "$WT"
 git -C /repo worktree add --detach "$WT" HEAD >/dev/null 2>&1 || exit 2
 trap 'git -C /repo worktree remove --force "$WT" >/dev/null 2>&1; rm -rf "$OUTD"' EXIT
-for FIX in "$HERE"/proposed_fixes/X07_*.patch; do
-  if git -C "$WT" apply --check "$FIX" 2>/dev/null; then git -C "$WT" apply "$FIX"; echo "applied $(basename "$FIX")"; fi
-done
+if [ "${ONFIX:-0}" = 1 ]; then
+  for FIX in "$HERE"/proposed_fixes/X07_*.patch; do
+    if git -C "$WT" apply --check "$FIX" 2>/dev/null; then git -C "$WT" apply "$FIX"; echo "applied $(basename "$FIX")"; fi
+  done
+fi
 RC=0
 BASE=$(cd "$HERE" && VERIF_OUT="$OUTD" VERIF_REPO="$WT" ./check X07 --tier quick 2>&1)
-echo "UNMUTATED: $(echo "$BASE" | grep -c '^VIOLATION') VIOLATION lines :: $(echo "$BASE" | tail -1)"
+echo "UNMUTATED: $(echo "$BASE" | grep -c '^VIOLATION') VIOLATION lines, $(echo "$BASE" | grep -c '^KNOWN-FINDING') KNOWN-FINDING lines :: $(echo "$BASE" | tail -1)"
 echo "$BASE" | grep -q '^VIOLATION' && RC=1
 NAMES="$*"
-[ -z "$NAMES" ] && NAMES=$(ls "$HERE"/selftest/X07/m*.patch | xargs -n1 basename | sed 's/\.patch$//' | sort -u)
+if [ -z "$NAMES" ]; then
+  LIST=$(ls "$HERE"/selftest/X07/m*.patch)
+  [ "${ONFIX:-0}" = 1 ] && LIST="$LIST $(ls "$HERE"/selftest/X07/onfix/m*.patch)"
+  NAMES=$(echo $LIST | xargs -n1 basename | sed 's/\.patch$//' | sort -u)
+fi
 for n in $NAMES; do
   P="$HERE/selftest/X07/$n.patch"
+  [ "${ONFIX:-0}" = 1 ] && [ -f "$HERE/selftest/X07/onfix/$n.patch" ] && P="$HERE/selftest/X07/onfix/$n.patch"
   git -C "$WT" apply "$P" || { echo "MUTANT $n: patch does not apply"; RC=2; continue; }
   OUT=$(cd "$HERE" && VERIF_OUT="$OUTD" VERIF_REPO="$WT" ./check X07 --tier quick 2>&1)
   CL=$(echo "$OUT" | grep 'violated clause' | awk '{print $3}' | sort -u | tr '\n' ' ')
